@@ -604,3 +604,22 @@ impl<C: PixelColor> DrawTarget for RowsT<C> {
         self.fill_solid(&b, color)
     }
 }
+
+
+/// Forwards `draw_iter` only, so `fill_contiguous`, `fill_solid` and `clear` are the trait defaults
+/// (what a draw_iter-only driver is), on top of any recording target.
+pub struct IterOnly<T>(pub T);
+
+impl<T: Dimensions> Dimensions for IterOnly<T> {
+    fn bounding_box(&self) -> Rectangle {
+        self.0.bounding_box()
+    }
+}
+
+impl<T: DrawTarget> DrawTarget for IterOnly<T> {
+    type Color = T::Color;
+    type Error = T::Error;
+    fn draw_iter<I: IntoIterator<Item = Pixel<T::Color>>>(&mut self, pixels: I) -> Result<(), T::Error> {
+        self.0.draw_iter(pixels)
+    }
+}
